@@ -1,6 +1,7 @@
 """C28 - Reentrant locking acquires and releases the physical lock exactly once.
 
-Explicit-state search: every sequence of length <= L (L = 6 quick / 8 thorough; every
+Explicit-state search: every sequence of length <= L (L = 6 quick / 8 thorough for
+CountedLock, LockableFiles and the working tree, 5 / 7 for repositories and branches; every
 shorter sequence is checked as a prefix) over {R lock_read, W lock_write, Wg lock_write(good
 token), Wb lock_write(bad token), U unlock} is executed on fresh real objects:
 breezy.counted_lock.CountedLock over a recording non-reentrant fake real lock;
